@@ -27,6 +27,29 @@ CONN_TYPES = {
     "socks-h2":   dict(scheme="https", proxy="socks5", http1=True, http2=True, proto="h2"),
 }
 
+# The same proxied topologies with the pool built as an httpcore.HTTPProxy / SOCKSProxy object (their own __init__ and
+# create_connection) instead of ConnectionPool(proxy=Proxy(...)).  Looked up by name like the others, but not part of an
+# iteration over CONN_TYPES: the checks that want them name them (LEGACY_TYPES).
+LEGACY_TYPES = {
+    "fwd-L":      dict(scheme="http", proxy="http", http1=True, http2=False, proto="h1", legacy=True),
+    "tunnel-L":   dict(scheme="https", proxy="http", http1=True, http2=False, proto="h1", legacy=True),
+    "socks-L":    dict(scheme="http", proxy="socks5", http1=True, http2=False, proto="h1", legacy=True),
+}
+
+
+class _ConnTypes(dict):
+    def __iter__(self):
+        return iter([k for k in dict.keys(self) if k not in LEGACY_TYPES])
+
+    def keys(self):
+        return list(iter(self))
+
+    def __len__(self):
+        return len(list(iter(self)))
+
+
+CONN_TYPES = _ConnTypes({**CONN_TYPES, **LEGACY_TYPES})
+
 
 class Topology:
     """Origins are created on demand, one server object per (host, port)."""
@@ -113,6 +136,14 @@ class Topology:
 
 def make_pool(ct_name, backend, variant, ssl_ctx=None, proxy_ssl_ctx=None, proxy_auth=None, proxy_headers=None, **kw):
     ct = CONN_TYPES[ct_name]
+    if ct.get("legacy"):
+        common = dict(ssl_context=ssl_ctx or sim.RecordingSSLContext("origin"), http1=ct["http1"], http2=ct["http2"], network_backend=backend, **kw)
+        if ct["proxy"] in ("http", "https"):
+            lcls = httpcore.HTTPProxy if variant == "sync" else httpcore.AsyncHTTPProxy
+            return lcls(proxy_url=f"{ct['proxy']}://{PROXY_HOST}:{PROXY_PORT}", proxy_auth=proxy_auth, proxy_headers=proxy_headers,
+                        proxy_ssl_context=(proxy_ssl_ctx or sim.RecordingSSLContext("proxy")) if ct["proxy"] == "https" else None, **common)
+        lcls = httpcore.SOCKSProxy if variant == "sync" else httpcore.AsyncSOCKSProxy
+        return lcls(proxy_url=f"socks5://{SOCKS_HOST}:{SOCKS_PORT}", proxy_auth=proxy_auth, **common)
     cls = httpcore.ConnectionPool if variant == "sync" else httpcore.AsyncConnectionPool
     proxy = None
     if ct["proxy"] == "http":
